@@ -1,4 +1,5 @@
 import TsVerif.C13.Lemmas
+import TsVerif.C13.StreamLemmas
 /-!
 # C13 — Parsing included ranges equals parsing their concatenation
 
@@ -16,11 +17,17 @@ runs of the real lexer, `checks/c13.py`):
 * positions map back by ψ: crossing a seam neither loses nor gains
   bytes of the concatenation (empty and adjacent ranges included)    → `seam_offset_preserved`
 * token ends lie on an included range (closed)                       → `mark_end_on_range`
-* "same characters as the concatenation" (`stream_concat`)          → OPEN; needs `RangesOnCharBoundaries`
-  (a character of the document never straddles a range end): `char_split_witness` shows the streams
-  differ without it (genuine finding, known_findings/C13.json).  What is proved towards it is the
-  positional core `seam_offset_preserved`; the decoder-locality half (a well-formed character is
-  decoded from its own bytes only) is not proved for the `U8_NEXT` port.
+* "same characters as the concatenation"                            → `stream_concat` (+ `stream_concat_text`):
+  under `RangesOnCharBoundaries` (= `FitRun`: along the run no character straddles a range end and an
+  ill-formed byte is at least four bytes before one) the sequence of (code point or error, size) and the
+  EOF seen over (document, ranges) is the one seen over the concatenation; offsets are related by ψ in the
+  form of the invariant "what is left of the concatenation at the lexer's document position"
+  (`skipL_remC`; numerically `seam_offset_preserved`).  `char_split_witness`: without the hypothesis the
+  streams differ (finding C13-char-splitting-range-boundary).  The theorem is about `rangedChars`, the
+  character logic of the port over ranges (skip loop, EOF, decode from the unclipped document, advance);
+  that the full port (`start`/`advance`, chunks, columns, BOM, fast path) produces that sequence is
+  checked by the driver on every real case (`model:rangedChars=lexStream`), OPEN as a theorem.
+* characters consumed all come from included bytes                  → `token_inside`
 * "same tree shape", "tree reports its ranges", "no leaf covers excluded text" → decided per real
   case by the Lean judge (`Judge.lean`); conventions: a leaf *boundary* may not lie strictly inside
   excluded text (the literal reading — no byte of a leaf is excluded — is false by construction:
@@ -131,6 +138,40 @@ theorem mark_end_on_range (l : Lexer) (h1 : l.idx < l.count)
     simp [hc]; omega
   · refine ⟨l.idx, Or.inl ⟨h1, ?_⟩⟩
     simp [hc]; exact h2
+
+/-- `stream_concat`: for every document and every valid range list, if along the run every
+character fits its range (`FitRun`, the decidable form of RangesOnCharBoundaries evaluated by the
+driver on each real case), then the lexer over (document, ranges) sees exactly the sequence of
+(code point or error, size) — and the same end — that a lexer sees over the concatenation of the
+ranges' bytes as a stand-alone text. -/
+theorem stream_concat (doc : List Nat) (r0 : TSRange) (rest : List TSRange) (fuel : Nat)
+    (hv : validFrom 0 (r0 :: rest) = true) (hf : FitRun doc fuel (r0 :: rest) r0.start_byte) :
+    (rangedChars doc fuel (r0 :: rest) r0.start_byte).map (fun x => (x.2.1, x.2.2)) =
+      refCharsS fuel (concatL doc (r0 :: rest)) :=
+  (stream_concat_core doc fuel (r0 :: rest) r0.start_byte 0 (ordered_of_validFrom _ 0 hv)
+    (by intro r rs h; cases h; exact Nat.le_refl _) hf).1
+
+/-- The same, phrased with C09's reference sequence of the concatenation as a text. -/
+theorem stream_concat_text (doc : List Nat) (r0 : TSRange) (rest : List TSRange) (fuel : Nat)
+    (hv : validFrom 0 (r0 :: rest) = true) (hf : FitRun doc fuel (r0 :: rest) r0.start_byte) :
+    (rangedChars doc fuel (r0 :: rest) r0.start_byte).map (fun x => (x.2.1, x.2.2)) =
+      (C09.refChars (concatL doc (r0 :: rest)) fuel 0).map (fun x => (x.2.1, x.2.2)) := by
+  rw [stream_concat doc r0 rest fuel hv hf, refChars_map]; rfl
+
+/-- `token_inside`: under the same hypotheses every character the lexer consumes over
+(document, ranges) lies entirely inside one of the given ranges and inside the document. -/
+theorem token_inside (doc : List Nat) (r0 : TSRange) (rest : List TSRange) (fuel : Nat)
+    (hv : validFrom 0 (r0 :: rest) = true) (hf : FitRun doc fuel (r0 :: rest) r0.start_byte) :
+    ∀ x ∈ rangedChars doc fuel (r0 :: rest) r0.start_byte,
+      ∃ r ∈ r0 :: rest, r.start_byte ≤ x.1 ∧ x.1 + x.2.2 ≤ r.end_byte ∧ x.1 + x.2.2 ≤ doc.length :=
+  (stream_concat_core doc fuel (r0 :: rest) r0.start_byte 0 (ordered_of_validFrom _ 0 hv)
+    (by intro r rs h; cases h; exact Nat.le_refl _) hf).2
+
+/-- Non-vacuity: `ab<<>>c€d`, ranges `[0,2) [6,6) [6,11)`: the hypotheses hold and the run is `a b c € d`. -/
+example : let doc : List Nat := [0x61, 0x62, 0x3c, 0x3c, 0x3e, 0x3e, 0x63, 0xe2, 0x82, 0xac, 0x64]
+    let rs : List TSRange := [⟨⟨0,0⟩,⟨0,2⟩,0,2⟩, ⟨⟨0,6⟩,⟨0,6⟩,6,6⟩, ⟨⟨0,6⟩,⟨0,11⟩,6,11⟩]
+    validFrom 0 rs = true ∧ fitRunB doc 12 rs 0 = true ∧
+    rangedChars doc 12 rs 0 = [(0, 0x61, 1), (1, 0x62, 1), (6, 0x63, 1), (7, 0x20ac, 3), (10, 0x64, 1)] := by decide
 
 /-! ## Witness for the necessity of `RangesOnCharBoundaries` (finding C13-char-splitting-range-boundary) -/
 
